@@ -117,7 +117,7 @@ func (c09) Gen(tier string, seed int64, emit func([]Ev)) {
 				}
 			case x < 9 && nseg > 0:
 				e["target"] = fmt.Sprintf("seg:%d", r.Intn(nseg))
-				switch r.Intn(19) {
+				switch r.Intn(22) {
 				case 0:
 					e["field"], e["arg"] = "seg.eid", eid4(rndEid(r))
 				case 1:
@@ -162,7 +162,7 @@ func (c09) Gen(tier string, seed int64, emit func([]Ev)) {
 					e["field"], e["arg"] = "seg.dev", r.Intn(4)
 				case 17:
 					e["field"], e["arg"] = "seg.hassub", r.Intn(2) == 0
-				case 18:
+				case 18, 19, 20, 21:
 					if w := r.Intn(4); w >= 2 {
 						// read-modify-write: the descriptor's own Components()/MID() views handed back
 						// in another order, some dropped, fresh ones inserted (plan: -1 = a fresh entry)
